@@ -848,4 +848,1210 @@ theorem Safe.processTx {s : State} (h : Safe s) : Safe s.processTx.1 ∧ s.proce
       rw [heq2] at h2 e2
       obtain ⟨h3, e3⟩ := Safe.fsmStage h2 (s.rl.allowedBytes s.cfg.rlBitMax)
       exact ⟨h3, e3.trans (e2.trans e1)⟩
+
+/-! ## `_process_rx` by frame kind -/
+namespace State
+
+/-- `_process_rx` on a Single Frame -/
+def rxSf (s : State) (d : Decoded) (data : Bytes) (esc : Bool) : State × Bool × Bool :=
+  if d.canDl > 8 && !esc then (s.error .MissingEscapeSequence, false, false)
+  else match s.rxState with
+    | .idle =>
+      let s := { s with rxFrameLen := 0, timerCf := s.timerCf.stop }
+      let s := s.deliver data
+      (s, s.pendingFc, true)
+    | .waitCf =>
+      let s := ((s.deliver data).stopReceiving).error .InterruptedWithSingleFrame
+      (s, s.pendingFc, true)
+
+/-- `_process_rx` on a First Frame -/
+def rxFf (s : State) (d : Decoded) (len : Nat) (data : Bytes) : State × Bool × Bool :=
+  match s.rxState with
+  | .idle =>
+    let s := { s with rxFrameLen := 0, timerCf := s.timerCf.stop }
+    let (s, started) := s.startReception len data d.rxDl
+    (s, started || s.pendingFc, false)
+  | .waitCf =>
+    let (s, started) := s.startReception len data d.rxDl
+    let s := s.error .InterruptedWithFirstFrame
+    (s, started || s.pendingFc, false)
+
+/-- `_process_rx` on a Consecutive Frame -/
+def rxCf (s : State) (d : Decoded) (sn : Nat) (data : Bytes) : State × Bool × Bool :=
+  match s.rxState with
+  | .idle =>
+    let s := { s with rxFrameLen := 0, timerCf := s.timerCf.stop }
+    let s := s.error .UnexpectedConsecutiveFrame
+    (s, s.pendingFc, false)
+  | .waitCf =>
+    let expected := (s.lastSeq + 1) % 16
+    if sn = expected then
+      let btr := s.rxFrameLen - s.rxBuf.length
+      if some d.rxDl != s.actualRxdl && d.rxDl < btr then
+        (s.error .ChangingInvalidRXDL, false, false)
+      else
+        let s := s.startRxCfTimer
+        let s := { s with lastSeq := sn, rxBuf := s.rxBuf ++ data.take btr }
+        if s.rxBuf.length ≥ s.rxFrameLen then
+          let s := (s.deliver s.rxBuf).stopReceiving
+          (s, s.pendingFc, true)
+        else
+          let s := { s with rxBlockCnt := s.rxBlockCnt + 1 }
+          if s.cfg.blocksize > 0 && s.rxBlockCnt % s.cfg.blocksize = 0 then
+            let s := s.requestFc 0
+            ({ s with timerCf := s.timerCf.stop }, true, false)
+          else (s, s.pendingFc, false)
+    else
+      let s := (s.stopReceiving).error .WrongSequenceNumber
+      (s, s.pendingFc, false)
+
+theorem processRx_eq (s : State) (m : CanMsg) :
+    s.processRx m =
+      match decode m.data s.addr.rx.rxPrefixSize with
+      | none => ((s.error .InvalidCanData).stopReceiving, false, false)
+      | some d =>
+        match d.pdu with
+        | .fc st bs stm => ({ s with lastFc := some ⟨st, bs, stm⟩ }, true, false)
+        | .sf _ data esc => s.rxSf d data esc
+        | .ff len data _ => s.rxFf d len data
+        | .cf sn data => s.rxCf d sn data := rfl
+
+end State
+
+/-- events `_process_rx` may log -/
+def Ev.rxInternal : Ev → Bool
+  | .err _ _ | .deliver _ => true
+  | _ => false
+
+/-- events `_process_tx` may log (the `tx` event itself is logged by the loop of `process`) -/
+def Ev.txInternal : Ev → Bool
+  | .err _ _ | .done _ _ | .pull _ _ => true
+  | _ => false
+
+/-- `l'` is `l` with events satisfying `P` put in front (the log is newest-first) -/
+inductive LogExt (P : Ev → Bool) : List Ev → List Ev → Prop
+  | refl (l : List Ev) : LogExt P l l
+  | cons (e : Ev) (l l' : List Ev) : P e = true → LogExt P l l' → LogExt P l (e :: l')
+
+attribute [grind intro] LogExt
+
+theorem LogExt.iff_append {P : Ev → Bool} {l l' : List Ev} :
+    LogExt P l l' ↔ ∃ evs, l' = evs ++ l ∧ ∀ e ∈ evs, P e = true := by
+  constructor
+  · intro h
+    induction h with
+    | refl => exact ⟨[], rfl, by simp⟩
+    | cons e l l' he _ ih =>
+      obtain ⟨evs, rfl, h⟩ := ih
+      exact ⟨e :: evs, rfl, by simpa [he] using h⟩
+  · rintro ⟨evs, rfl, h⟩
+    induction evs with
+    | nil => exact .refl _
+    | cons e evs ih =>
+      simp only [List.mem_cons, forall_eq_or_imp] at h
+      exact .cons _ _ _ h.1 (ih h.2)
+
+theorem LogExt.trans {P : Ev → Bool} {l₁ l₂ l₃ : List Ev} (h₁ : LogExt P l₁ l₂) (h₂ : LogExt P l₂ l₃) :
+    LogExt P l₁ l₃ := by
+  induction h₂ with
+  | refl => exact h₁
+  | cons e l l' he _ ih => exact .cons _ _ _ he (ih h₁)
+
+theorem LogExt.mono {P Q : Ev → Bool} (hPQ : ∀ e, P e = true → Q e = true) {l l' : List Ev}
+    (h : LogExt P l l') : LogExt Q l l' := by
+  induction h with
+  | refl => exact .refl _
+  | cons e l l' he _ ih => exact .cons _ _ _ (hPQ _ he) ih
+
+/-! ## Receive side: frame conditions, `RxJust`, deliveries, Flow Control requests -/
+
+/-- payloads put on the rx queue according to the log (newest first, like the log) -/
+def deliveries : List Ev → List Bytes
+  | [] => []
+  | .deliver p :: l => p :: deliveries l
+  | _ :: l => deliveries l
+
+@[simp, grind =] theorem deliveries_nil : deliveries [] = [] := rfl
+@[simp, grind =] theorem deliveries_deliver (p : Bytes) (l : List Ev) :
+    deliveries (.deliver p :: l) = p :: deliveries l := rfl
+@[simp, grind =] theorem deliveries_err (t : Nat) (e : Err) (l : List Ev) :
+    deliveries (.err t e :: l) = deliveries l := rfl
+@[simp, grind =] theorem deliveries_tx (t : Nat) (m : CanMsg) (l : List Ev) :
+    deliveries (.tx t m :: l) = deliveries l := rfl
+@[simp, grind =] theorem deliveries_done (i : Nat) (b : Bool) (l : List Ev) :
+    deliveries (.done i b :: l) = deliveries l := rfl
+@[simp, grind =] theorem deliveries_pull (i n : Nat) (l : List Ev) :
+    deliveries (.pull i n :: l) = deliveries l := rfl
+@[simp, grind =] theorem deliveries_rx (t : Nat) (m : CanMsg) (l : List Ev) :
+    deliveries (.rx t m :: l) = deliveries l := rfl
+@[simp, grind =] theorem deliveries_rxNone (t : Nat) (l : List Ev) :
+    deliveries (.rxNone t :: l) = deliveries l := rfl
+
+/-- what `_process_rx` / `_check_timeouts_rx` / `stop_receiving` never touch: configuration, clock,
+    the whole transmit side, the exception flag; the log only gets errors and deliveries in front -/
+structure RxFrame (s s' : State) : Prop where
+  cfg : s'.cfg = s.cfg
+  addr : s'.addr = s.addr
+  now : s'.now = s.now
+  inbox : s'.inbox = s.inbox
+  exc : s'.exc = s.exc
+  txState : s'.txState = s.txState
+  txQueue : s'.txQueue = s.txQueue
+  active : s'.active = s.active
+  standby : s'.standby = s.standby
+  txFrameLen : s'.txFrameLen = s.txFrameLen
+  txSeq : s'.txSeq = s.txSeq
+  txBlockCnt : s'.txBlockCnt = s.txBlockCnt
+  remoteBs : s'.remoteBs = s.remoteBs
+  wftCnt : s'.wftCnt = s.wftCnt
+  timerFc : s'.timerFc = s.timerFc
+  timerStmin : s'.timerStmin = s.timerStmin
+  rl : s'.rl = s.rl
+  log : LogExt Ev.rxInternal s.log s'.log
+
+
+theorem RxFrame.rxSf (s : State) (d : Decoded) (data : Bytes) (esc : Bool) : RxFrame s (s.rxSf d data esc).1 := by
+  unfold State.rxSf
+  constructor <;>
+    grind [State.deliver, State.stopReceiving, State.error, State.emit, Ev.rxInternal]
+
+theorem RxFrame.rxFf (s : State) (d : Decoded) (len : Nat) (data : Bytes) : RxFrame s (s.rxFf d len data).1 := by
+  unfold State.rxFf State.startReception
+  constructor <;>
+    grind [State.stopReceiving, State.error, State.emit, State.requestFc, startRxCfTimer, Ev.rxInternal]
+
+theorem RxFrame.rxCf (s : State) (d : Decoded) (sn : Nat) (data : Bytes) : RxFrame s (s.rxCf d sn data).1 := by
+  unfold State.rxCf
+  constructor <;>
+    grind [State.deliver, State.stopReceiving, State.error, State.emit, State.requestFc, startRxCfTimer,
+      Ev.rxInternal]
+
+theorem RxFrame.processRx (s : State) (m : CanMsg) : RxFrame s (s.processRx m).1 := by
+  rw [processRx_eq]
+  split
+  · constructor <;> grind [State.stopReceiving, State.error, State.emit, Ev.rxInternal]
+  · split
+    · constructor <;> first | rfl | exact .refl _
+    · exact RxFrame.rxSf ..
+    · exact RxFrame.rxFf ..
+    · exact RxFrame.rxCf ..
+
+theorem RxFrame.stopReceiving (s : State) : RxFrame s s.stopReceiving := by
+  constructor <;> first | rfl | exact .refl _
+
+theorem RxFrame.checkTimeoutsRx (s : State) : RxFrame s s.checkTimeoutsRx := by
+  unfold State.checkTimeoutsRx
+  constructor <;> grind [State.stopReceiving, State.error, State.emit, Ev.rxInternal]
+
+/-! ### the receiver invariant -/
+
+/-- While a segmented reception is in progress the buffer never exceeds the announced length, and the
+    announced length was accepted (`≤ max_frame_size`). -/
+def RxJust (s : State) : Prop :=
+  s.rxState = .waitCf → s.rxBuf.length ≤ s.rxFrameLen ∧ s.rxFrameLen ≤ s.cfg.maxFrameSize
+
+theorem RxJust.init (c : Cfg) (a : Addr) : RxJust (State.init c a) := by
+  simp [RxJust, State.init]
+
+theorem RxJust.of_eq {s s' : State} (h : RxJust s) (h1 : s'.rxState = s.rxState) (h2 : s'.rxBuf = s.rxBuf)
+    (h3 : s'.rxFrameLen = s.rxFrameLen) (h4 : s'.cfg = s.cfg) : RxJust s' := by
+  simp_all [RxJust]
+
+theorem RxJust.stopReceiving (s : State) : RxJust s.stopReceiving := by
+  simp [RxJust, State.stopReceiving]
+
+theorem RxJust.checkTimeoutsRx {s : State} (h : RxJust s) : RxJust s.checkTimeoutsRx := by
+  unfold State.checkTimeoutsRx; split
+  · exact RxJust.stopReceiving _
+  · exact h
+
+theorem Safe.ff_data_len (d : Bytes) (len : Nat) (data : Bytes) (esc : Bool)
+    (h : decodeBody d = some (.ff len data esc)) : data.length ≤ len := by
+  unfold decodeBody at h
+  grind
+
+theorem RxJust.processRx {s : State} (h : RxJust s) (m : CanMsg) : RxJust (s.processRx m).1 := by
+  unfold RxJust at *
+  rw [processRx_eq]
+  split
+  · simp [State.stopReceiving]
+  · next d hd =>
+    split
+    · exact h
+    · unfold State.rxSf
+      grind [State.deliver, State.stopReceiving, State.error, State.emit]
+    · next len data esc hp =>
+      have hlen : data.length ≤ len := by
+        unfold decode at hd
+        split at hd
+        · simp at hd
+        · split at hd
+          · simp at hd
+          · next p hb =>
+            simp only [Option.some.injEq] at hd
+            subst hd
+            simp only at hp
+            subst hp
+            exact Safe.ff_data_len _ _ _ _ hb
+      unfold State.rxFf State.startReception
+      grind [State.stopReceiving, State.error, State.emit, State.requestFc, startRxCfTimer]
+    · unfold State.rxCf
+      grind [State.deliver, State.stopReceiving, State.error, State.emit, State.requestFc, startRxCfTimer]
+
+/-! ### deliveries: which frame puts what on the rx queue -/
+
+/-- nothing delivered by the step `s → s'` -/
+def NoDelivery (s s' : State) : Prop :=
+  s'.rxQueue = s.rxQueue ∧ deliveries s'.log = deliveries s.log
+
+/-- exactly `p` delivered by the step `s → s'` (queue and log agree) -/
+def Delivered (s s' : State) (p : Bytes) : Prop :=
+  s'.rxQueue = s.rxQueue ++ [p] ∧ deliveries s'.log = p :: deliveries s.log
+
+theorem rxSf_deliv (s : State) (d : Decoded) (data : Bytes) (esc : Bool) :
+    NoDelivery s (s.rxSf d data esc).1 ∨ Delivered s (s.rxSf d data esc).1 data := by
+  unfold State.rxSf NoDelivery Delivered
+  grind [State.deliver, State.stopReceiving, State.error, State.emit]
+
+theorem rxFf_deliv (s : State) (d : Decoded) (len : Nat) (data : Bytes) :
+    NoDelivery s (s.rxFf d len data).1 := by
+  unfold State.rxFf State.startReception NoDelivery
+  grind [State.stopReceiving, State.error, State.emit, State.requestFc, startRxCfTimer]
+
+theorem rxCf_deliv (s : State) (d : Decoded) (sn : Nat) (data : Bytes) :
+    NoDelivery s (s.rxCf d sn data).1 ∨
+      (s.rxState = .waitCf ∧ sn = (s.lastSeq + 1) % 16 ∧
+        s.rxFrameLen ≤ (s.rxBuf ++ data.take (s.rxFrameLen - s.rxBuf.length)).length ∧
+        Delivered s (s.rxCf d sn data).1 (s.rxBuf ++ data.take (s.rxFrameLen - s.rxBuf.length))) := by
+  unfold State.rxCf NoDelivery Delivered
+  grind [State.deliver, State.stopReceiving, State.error, State.emit, State.requestFc, startRxCfTimer]
+
+/-- One call of `_process_rx` delivers nothing, or the data of the Single Frame it was given, or —
+    when it was given the expected Consecutive Frame — the buffer completed by that frame. -/
+theorem processRx_deliv (s : State) (m : CanMsg) :
+    NoDelivery s (s.processRx m).1 ∨
+    (∃ d l p esc, decode m.data s.addr.rx.rxPrefixSize = some d ∧ d.pdu = .sf l p esc ∧
+        Delivered s (s.processRx m).1 p) ∨
+    (∃ d data, decode m.data s.addr.rx.rxPrefixSize = some d ∧ d.pdu = .cf ((s.lastSeq + 1) % 16) data ∧
+        s.rxState = .waitCf ∧
+        s.rxFrameLen ≤ (s.rxBuf ++ data.take (s.rxFrameLen - s.rxBuf.length)).length ∧
+        Delivered s (s.processRx m).1 (s.rxBuf ++ data.take (s.rxFrameLen - s.rxBuf.length))) := by
+  rw [processRx_eq]
+  split
+  · left; simp [NoDelivery, State.stopReceiving, State.error, State.emit]
+  · next d hd =>
+    split
+    · left; exact ⟨rfl, rfl⟩
+    · next l data esc hp =>
+      rcases rxSf_deliv s d data esc with h | h
+      · exact .inl h
+      · exact .inr (.inl ⟨d, l, data, esc, hd, hp, h⟩)
+    · exact .inl (rxFf_deliv ..)
+    · next sn data hp =>
+      rcases rxCf_deliv s d sn data with h | ⟨h1, h2, h3, h4⟩
+      · exact .inl h
+      · subst h2
+        exact .inr (.inr ⟨d, data, hd, hp, h1, h3, h4⟩)
+
+/-! ### Flow Control requests: which frame sets `pending_flow_control_tx` -/
+
+theorem rxSf_pend (s : State) (d : Decoded) (data : Bytes) (esc : Bool)
+    (h : (s.rxSf d data esc).1.pendingFc = true) : s.pendingFc = true := by
+  unfold State.rxSf at h
+  grind [State.deliver, State.stopReceiving, State.error, State.emit]
+
+/-- the Consecutive Frame `sn` completes a block (and not the message) in state `s` -/
+def blockDone (s : State) (sn : Nat) : Prop :=
+  s.rxState = .waitCf ∧ sn = (s.lastSeq + 1) % 16 ∧ 0 < s.cfg.blocksize ∧
+    (s.rxBlockCnt + 1) % s.cfg.blocksize = 0
+
+theorem rxCf_pend (s : State) (d : Decoded) (sn : Nat) (data : Bytes)
+    (h : (s.rxCf d sn data).1.pendingFc = true) : s.pendingFc = true ∨ blockDone s sn := by
+  unfold State.rxCf at h
+  unfold blockDone
+  grind [State.deliver, State.stopReceiving, State.error, State.emit, State.requestFc, startRxCfTimer]
+
+/-- `_process_rx` requests a Flow Control only for a First Frame or a block-completing Consecutive Frame. -/
+theorem processRx_pend (s : State) (m : CanMsg) (h : (s.processRx m).1.pendingFc = true) :
+    s.pendingFc = true ∨
+    (∃ d len data esc, decode m.data s.addr.rx.rxPrefixSize = some d ∧ d.pdu = .ff len data esc) ∨
+    (∃ d sn data, decode m.data s.addr.rx.rxPrefixSize = some d ∧ d.pdu = .cf sn data ∧ blockDone s sn) := by
+  rw [processRx_eq] at h
+  split at h
+  · simp [State.stopReceiving] at h
+  · next d hd =>
+    split at h
+    · exact .inl h
+    · exact .inl (rxSf_pend _ _ _ _ h)
+    · next len data esc hp => exact .inr (.inl ⟨d, len, data, esc, hd, hp⟩)
+    · next sn data hp =>
+      rcases rxCf_pend _ _ _ _ h with h | h
+      · exact .inl h
+      · exact .inr (.inr ⟨d, sn, data, hd, hp, h⟩)
+
+/-- the status of a requested Flow Control is ContinueToSend (0) or Overflow (2) -/
+theorem processRx_pendStatus (s : State) (m : CanMsg) :
+    (s.processRx m).1.pendingFcStatus = s.pendingFcStatus ∨
+      (s.processRx m).1.pendingFcStatus = some 0 ∨ (s.processRx m).1.pendingFcStatus = some 2 := by
+  rw [processRx_eq]
+  split
+  · left; rfl
+  · split
+    · left; rfl
+    · unfold State.rxSf
+      grind [State.deliver, State.stopReceiving, State.error, State.emit]
+    · unfold State.rxFf State.startReception
+      grind [State.stopReceiving, State.error, State.emit, State.requestFc, startRxCfTimer]
+    · unfold State.rxCf
+      grind [State.deliver, State.stopReceiving, State.error, State.emit, State.requestFc, startRxCfTimer]
+
+/-! ## Transmit side: frame conditions -/
+
+/-- what `_process_tx` never touches: configuration, clock, inbox, the reception state machine and its
+    buffer, the rx queue; it only clears `pending_flow_control_tx`; the log only gets errors, request
+    completions and generator pulls in front (the `tx` event is logged by the loop of `process`) -/
+structure TxFrame (s s' : State) : Prop where
+  cfg : s'.cfg = s.cfg
+  addr : s'.addr = s.addr
+  now : s'.now = s.now
+  inbox : s'.inbox = s.inbox
+  rxState : s'.rxState = s.rxState
+  rxBuf : s'.rxBuf = s.rxBuf
+  rxFrameLen : s'.rxFrameLen = s.rxFrameLen
+  lastSeq : s'.lastSeq = s.lastSeq
+  rxBlockCnt : s'.rxBlockCnt = s.rxBlockCnt
+  actualRxdl : s'.actualRxdl = s.actualRxdl
+  rxQueue : s'.rxQueue = s.rxQueue
+  pendSt : s'.pendingFcStatus = s.pendingFcStatus
+  pend : s'.pendingFc = true → s.pendingFc = true
+  log : LogExt Ev.txInternal s.log s'.log
+
+theorem TxFrame.refl (s : State) : TxFrame s s := by
+  constructor <;> first | rfl | exact .refl _ | exact id
+
+/-- closes `TxFrame s s'` when `s'` is a structure update of `s` outside the frame -/
+macro "txframe_upd" : tactic =>
+  `(tactic| (constructor <;> first | rfl | exact LogExt.refl _ | exact id))
+
+theorem TxFrame.trans {s₁ s₂ s₃ : State} (h₁ : TxFrame s₁ s₂) (h₂ : TxFrame s₂ s₃) : TxFrame s₁ s₃ := by
+  obtain ⟨a1, a2, a3, a4, a5, a6, a7, a8, a9, a10, a11, a12, a13, a14⟩ := h₁
+  obtain ⟨b1, b2, b3, b4, b5, b6, b7, b8, b9, b10, b11, b12, b13, b14⟩ := h₂
+  constructor <;> first | exact a14.trans b14 | exact fun h => a13 (b13 h) | simp_all
+
+theorem TxFrame.error (s : State) (e : Err) : TxFrame s (s.error e) := by
+  constructor <;> first | rfl | exact id | exact .cons _ _ _ rfl (.refl _)
+
+theorem TxFrame.raise (s : State) (e : PyExc) : TxFrame s (s.raise e) := by txframe_upd
+
+theorem TxFrame.stopSending (s : State) (b : Bool) : TxFrame s (s.stopSending b) := by
+  constructor <;> simp
+  split
+  · exact .cons _ _ _ rfl (.refl _)
+  · exact .refl _
+
+theorem TxFrame.consumeActive (s : State) (r : Req) (n : Nat) (e : Bool) :
+    TxFrame s (s.consumeActive r n e).1 := by
+  constructor <;> simp
+  unfold State.pullLog
+  split
+  · exact .cons _ _ _ rfl (.refl _)
+  · exact .refl _
+
+theorem TxFrame.sfFinish (s : State) (tat : Tat) (allowed : Nat) (d : Bytes) :
+    TxFrame s (s.sfFinish tat allowed d).1 := by
+  unfold State.sfFinish
+  split
+  · exact TxFrame.raise _ _
+  · split
+    · txframe_upd
+    · exact TxFrame.stopSending _ _
+
+theorem TxFrame.ffFinish (s : State) (allowed : Nat) (d : Bytes) :
+    TxFrame s (s.ffFinish allowed d).1 := by
+  unfold State.ffFinish
+  split
+  · exact TxFrame.raise _ _
+  · split <;> txframe_upd
+
+theorem TxFrame.startTx (s : State) (r : Req) (allowed : Nat) : TxFrame s (s.startTx r allowed).1 := by
+  rw [startTx_eq]
+  have h0 : TxFrame s ({ s with txFrameLen := r.size } : State) := by txframe_upd
+  by_cases hcond : r.size + (if s.sizeOnFirst r then 1 else 2) + s.txPrefixLen ≤ s.cfg.txDl
+  · rw [if_pos hcond]
+    split
+    · exact (TxFrame.consumeActive ..).trans ((TxFrame.error ..).trans (TxFrame.stopSending ..))
+    · exact (TxFrame.consumeActive ..).trans (TxFrame.sfFinish ..)
+  · rw [if_neg hcond]
+    split
+    · exact h0.trans ((TxFrame.consumeActive ..).trans ((TxFrame.error ..).trans (TxFrame.stopSending ..)))
+    · have h1 := TxFrame.consumeActive ({ s with txFrameLen := r.size } : State) r (s.ffDataLen r) true
+      have h2 : TxFrame (({ s with txFrameLen := r.size } : State).consumeActive r (s.ffDataLen r) true).1
+          ({ (({ s with txFrameLen := r.size } : State).consumeActive r (s.ffDataLen r) true).1 with
+              txSeq := 1 } : State) := by txframe_upd
+      exact h0.trans (h1.trans (h2.trans (TxFrame.ffFinish ..)))
+
+theorem TxFrame.readTxQueue (q : List Req) : ∀ (s : State) (allowed : Nat),
+    TxFrame s (s.readTxQueue allowed q).1 := by
+  induction q with
+  | nil => intro s allowed; first | exact TxFrame.refl s | txframe_upd
+  | cons r rest ih =>
+    intro s allowed
+    unfold State.readTxQueue
+    dsimp only
+    split
+    · refine TxFrame.trans ?_ (ih _ allowed)
+      constructor <;> first | rfl | exact id | exact .cons _ _ _ rfl (.refl _)
+    · refine TxFrame.trans ?_ (TxFrame.startTx _ _ _)
+      txframe_upd
+
+theorem TxFrame.cfEmit (s : State) (p : Bytes) : TxFrame s (s.cfEmit p).1 := by
+  unfold State.cfEmit
+  split
+  · split
+    · exact TxFrame.raise _ _
+    · first | exact TxFrame.refl s | txframe_upd
+  · first | exact TxFrame.refl s | txframe_upd
+
+theorem TxFrame.cfAfter (s : State) (r' : Req) (rbs : Nat) (out : Option CanMsg) :
+    TxFrame s (s.cfAfter r' rbs out).1 := by
+  unfold State.cfAfter
+  split
+  · split
+    · exact (TxFrame.error ..).trans (TxFrame.stopSending ..)
+    · exact TxFrame.stopSending ..
+  · split <;> first | exact TxFrame.refl s | txframe_upd
+
+theorem TxFrame.transmitCf (s : State) (allowed : Nat) : TxFrame s (s.transmitCf allowed).1 := by
+  rw [transmitCf_eq]
+  split
+  · exact TxFrame.raise ..
+  · exact TxFrame.raise ..
+  · split
+    · split
+      · split
+        · exact (TxFrame.consumeActive ..).trans (TxFrame.raise ..)
+        · split
+          · exact (TxFrame.consumeActive ..).trans (TxFrame.cfEmit ..)
+          · exact (TxFrame.consumeActive ..).trans ((TxFrame.cfEmit ..).trans (TxFrame.cfAfter ..))
+      · first | exact TxFrame.refl s | txframe_upd
+    · first | exact TxFrame.refl s | txframe_upd
+
+theorem TxFrame.handleFc (s : State) (fc : FcFrame) : TxFrame s (s.handleFc fc) := by
+  unfold State.handleFc
+  split
+  · exact TxFrame.error ..
+  · split
+    · split
+      · exact TxFrame.error ..
+      · split
+        · exact (TxFrame.error ..).trans (TxFrame.stopSending ..)
+        · dsimp only; split <;> first | exact TxFrame.refl s | txframe_upd
+    · split
+      · dsimp only; split <;> first | exact TxFrame.refl s | txframe_upd
+      · first | exact TxFrame.refl s | txframe_upd
+
+theorem TxFrame.pendStage (s : State) : TxFrame s s.pendStage.1 := by
+  unfold State.pendStage
+  constructor <;> grind [State.raise, startRxCfTimer]
+
+theorem TxFrame.fcStage (s : State) : TxFrame s s.fcStage.1 := by
+  unfold State.fcStage
+  dsimp only
+  split
+  · split
+    · refine TxFrame.trans ?_ ((TxFrame.stopSending _ _).trans (TxFrame.error _ _))
+      txframe_upd
+    · refine TxFrame.trans ?_ (TxFrame.handleFc _ _)
+      txframe_upd
+  · first | exact TxFrame.refl s | txframe_upd
+
+theorem TxFrame.fsmDispatch (s : State) (allowed : Nat) : TxFrame s (s.fsmDispatch allowed).1 := by
+  unfold State.fsmDispatch
+  split
+  · exact TxFrame.readTxQueue ..
+  · split
+    · split
+      · dsimp only; split
+        all_goals first
+          | txframe_upd
+          | (refine TxFrame.trans ?_ (TxFrame.stopSending _ _); txframe_upd)
+      · exact TxFrame.refl s
+    · exact TxFrame.refl s
+  · split
+    · split
+      · dsimp only; split
+        all_goals first
+          | txframe_upd
+          | (refine TxFrame.trans ?_ (TxFrame.stopSending _ _); txframe_upd)
+      · exact TxFrame.refl s
+    · exact TxFrame.refl s
+  · exact TxFrame.refl s
+  · exact TxFrame.transmitCf ..
+
+theorem TxFrame.fsmStage (s : State) (allowed : Nat) : TxFrame s (s.fsmStage allowed).1 := by
+  unfold State.fsmStage
+  have h1 : TxFrame s (if s.timerFc.timedOut s.now then (s.error .FlowControlTimeout).stopSending false else s) := by
+    split
+    · exact (TxFrame.error ..).trans (TxFrame.stopSending ..)
+    · exact TxFrame.refl s
+  generalize (if s.timerFc.timedOut s.now then (s.error .FlowControlTimeout).stopSending false else s) = s1 at h1
+  dsimp only
+  split
+  · exact h1.trans (TxFrame.raise ..)
+  · have h2 : ∀ b : Bool, TxFrame s1 (if b = true then s1.stopSending true else s1) := by
+      intro b
+      cases b
+      · exact TxFrame.refl _
+      · exact TxFrame.stopSending ..
+    generalize (decide (s1.txState ≠ .idle) && (match s1.active with | some r => r.depleted | none => false)
+          && s1.standby.isNone) = cnd
+    have h2 := h2 cnd
+    generalize (if cnd = true then s1.stopSending true else s1) = s2 at h2
+    have h3 := TxFrame.fsmDispatch s2 allowed
+    split
+    · exact h1.trans (h2.trans h3)
+    · split
+      · refine h1.trans (h2.trans (h3.trans ?_))
+        txframe_upd
+      · exact h1.trans (h2.trans h3)
+
+/-- **Frame condition of `_process_tx`.** -/
+theorem TxFrame.processTx (s : State) : TxFrame s s.processTx.1 := by
+  rw [processTx_eq]
+  have h1 := TxFrame.pendStage s
+  split
+  · next heq => rw [heq] at h1; exact h1
+  · next heq => rw [heq] at h1; exact h1
+  · next s1 heq =>
+    rw [heq] at h1
+    have h2 := TxFrame.fcStage s1
+    split
+    · next heq2 => rw [heq2] at h2; exact h1.trans h2
+    · next s2 heq2 =>
+      rw [heq2] at h2
+      exact h1.trans (h2.trans (TxFrame.fsmStage ..))
+
+/-! ## The quiet sender: the user sends nothing -/
+
+/-- nothing queued, nothing in transmission -/
+def Quiet (s : State) : Prop := s.txQueue = [] ∧ s.txState = .idle ∧ s.active = none
+
+theorem Quiet.init (c : Cfg) (a : Addr) : Quiet (State.init c a) := ⟨rfl, rfl, rfl⟩
+
+theorem Quiet.of_rxFrame {s s' : State} (h : Quiet s) (f : RxFrame s s') : Quiet s' := by
+  obtain ⟨h1, h2, h3⟩ := h
+  exact ⟨f.txQueue.trans h1, f.txState.trans h2, f.active.trans h3⟩
+
+theorem Quiet.pendStage {s : State} (h : Quiet s) : Quiet s.pendStage.1 := by
+  unfold Quiet State.pendStage at *
+  grind [State.raise, startRxCfTimer]
+
+theorem Quiet.fcStage {s : State} (h : Quiet s) : Quiet s.fcStage.1 := by
+  unfold Quiet State.fcStage State.handleFc at *
+  grind [State.error, State.emit]
+
+theorem Quiet.fsmStage {s : State} (h : Quiet s) (allowed : Nat) :
+    Quiet (s.fsmStage allowed).1 ∧ (s.fsmStage allowed).2.1 = none := by
+  obtain ⟨h1, h2, h3⟩ := h
+  unfold Quiet State.fsmStage State.fsmDispatch
+  simp [h1, h2, h3, State.readTxQueue]
+  grind [State.error, State.emit, State.readTxQueue]
+
+/-- `_process_tx` always consumes the Flow Control request -/
+theorem pendStage_clears (s : State) : s.pendStage.1.pendingFc = false := by
+  unfold State.pendStage
+  grind [State.raise, startRxCfTimer]
+
+theorem processTx_clears (s : State) : s.processTx.1.pendingFc = false := by
+  have h1 := pendStage_clears s
+  rw [processTx_eq]
+  split
+  · next heq => rw [heq] at h1; exact h1
+  · next heq => rw [heq] at h1; exact h1
+  · next s1 heq =>
+    rw [heq] at h1
+    have h2 := TxFrame.fcStage s1
+    split
+    · next heq2 =>
+      rw [heq2] at h2
+      cases hp : (s.pendStage.1.fcStage).1.pendingFc
+      · simp_all
+      · have := h2.pend (by simp_all); simp_all
+    · next s2 heq2 =>
+      rw [heq2] at h2
+      have h3 := (h2.trans (TxFrame.fsmStage s2 (s.rl.allowedBytes s.cfg.rlBitMax)))
+      cases hp : (s2.fsmStage (s.rl.allowedBytes s.cfg.rlBitMax)).1.pendingFc
+      · rfl
+      · have := h3.pend hp; simp_all
+
+/-- what stage 1 can output: the Flow Control frame with the stored status, only if one was requested
+    and the layer is not in listen mode -/
+theorem pendStage_out (s : State) (msg : CanMsg) (h : s.pendStage.2 = some (some msg)) :
+    s.pendingFc = true ∧ s.cfg.listen = false ∧
+      ∃ st, s.pendingFcStatus = some st ∧ makeFlowControl s.cfg s.addr st = some msg := by
+  unfold State.pendStage at h
+  grind [State.raise, startRxCfTimer]
+end Isotp
+namespace Isotp
+open State
+
+/-- **Quiet sender.** With nothing to send, `_process_tx` stays quiet and its only possible output is the
+    Flow Control frame that the receive side requested. -/
+theorem Quiet.processTx {s : State} (h : Quiet s) :
+    Quiet s.processTx.1 ∧
+      ∀ msg, s.processTx.2.1 = some msg →
+        s.pendingFc = true ∧ s.cfg.listen = false ∧
+          ∃ st, s.pendingFcStatus = some st ∧ makeFlowControl s.cfg s.addr st = some msg := by
+  have h1 := Quiet.pendStage h
+  have ho := pendStage_out s
+  rw [processTx_eq]
+  split
+  · next heq => rw [heq] at h1; exact ⟨h1, by simp⟩
+  · next s1 msg heq =>
+    rw [heq] at h1 ho
+    refine ⟨h1, ?_⟩
+    intro m hm
+    simp only [Option.some.injEq] at hm
+    subst hm
+    exact ho _ rfl
+  · next s1 heq =>
+    rw [heq] at h1
+    have h2 := Quiet.fcStage h1
+    split
+    · next heq2 => rw [heq2] at h2; exact ⟨h2, by simp⟩
+    · next s2 heq2 =>
+      rw [heq2] at h2
+      have h3 := Quiet.fsmStage h2 (s.rl.allowedBytes s.cfg.rlBitMax)
+      exact ⟨h3.1, by simp [h3.2]⟩
+
+/-! ## Lifting step invariants to `process()` -/
+
+/-- A state predicate kept by every elementary step of `process()`: `_process_rx` on any frame,
+    `_check_timeouts_rx`, `_process_tx` (with the `tx` event of its output), the bookkeeping events
+    of the loop, the clock / inbox, the rate limiter update. -/
+structure StepInv (P : State → Prop) : Prop where
+  rx : ∀ s m, P s → P (s.processRx m).1
+  timeout : ∀ s, P s → P s.checkTimeoutsRx
+  tx : ∀ s, P s → P s.processTx.1
+  txEmit : ∀ s m, P s → s.processTx.2.1 = some m → P (s.processTx.1.emit (.tx s.processTx.1.now m))
+  rxEv : ∀ s t m, P s → P (s.emit (.rx t m))
+  rxNone : ∀ s t, P s → P (s.emit (.rxNone t))
+  env : ∀ s i n, P s → P { s with inbox := i, now := n }
+  rl : ∀ s l, P s → P { s with rl := l }
+
+theorem StepInv.rxLoop {P : State → Prop} (hP : StepInv P) (doTx : Bool) (l : List (Nat × CanMsg)) :
+    ∀ (s : State) (st : Stats), P s → P (rxLoop doTx s st l).1 := by
+  induction l with
+  | nil =>
+    intro s st h
+    unfold State.rxLoop
+    exact hP.timeout _ (hP.rxNone _ _ (hP.env s [] s.now h))
+  | cons x rest ih =>
+    intro s st h
+    obtain ⟨dt, m⟩ := x
+    unfold State.rxLoop
+    have h1 : P (({ s with inbox := rest, now := s.now + dt } : State).emit
+        (.rx (s.now + dt) m)).checkTimeoutsRx := hP.timeout _ (hP.rxEv _ _ _ (hP.env s rest _ h))
+    dsimp only
+    generalize (({ s with inbox := rest, now := s.now + dt } : State).emit
+        (.rx (s.now + dt) m)).checkTimeoutsRx = s1 at h1 ⊢
+    split
+    · have h2 := hP.rx s1 m h1
+      split
+      · exact h2
+      · split
+        · exact h2
+        · exact ih _ _ h2
+    · split
+      · exact h1
+      · exact ih _ _ h1
+
+theorem StepInv.txLoop {P : State → Prop} (hP : StepInv P) (f : Nat) :
+    ∀ (s : State) (n : Nat), P s → P (txLoop f s n).1 := by
+  induction f with
+  | zero => intro s n h; exact h
+  | succ f ih =>
+    intro s n h
+    unfold State.txLoop
+    dsimp only
+    split
+    · exact hP.tx s h
+    · cases ho : s.processTx.2.1 with
+      | none =>
+        simp only
+        split
+        · exact hP.tx s h
+        · simp; exact hP.tx s h
+      | some m =>
+        have h2 := hP.txEmit s m h ho
+        simp only
+        split
+        · exact h2
+        · simp; exact ih _ _ h2
+
+theorem StepInv.processLoop {P : State → Prop} (hP : StepInv P) (f : Nat) (doRx doTx : Bool) :
+    ∀ (s : State) (st : Stats), P s → P (processLoop f doRx doTx s st).1 := by
+  induction f with
+  | zero => intro s st h; exact h
+  | succ f ih =>
+    intro s st h
+    unfold State.processLoop
+    dsimp only
+    generalize hA : (if (doRx && !(doTx && !s.txQueue.isEmpty && decide (s.rxState = .idle) &&
+        decide (s.txState = .idle))) = true then s.rxLoop doTx st s.inbox else (s, st, false)) = A
+    have hPA : P A.1 := by
+      rw [← hA]; split
+      · exact hP.rxLoop doTx _ _ _ h
+      · exact h
+    obtain ⟨sA, stA, rxRun⟩ := A
+    dsimp only at hPA ⊢
+    have hPB := hP.rl sA (sA.rl.update sA.cfg.rlWindowNs sA.now) hPA
+    generalize ({ sA with rl := sA.rl.update sA.cfg.rlWindowNs sA.now } : State) = sB at hPB ⊢
+    generalize hC : (if doTx = true then
+        (match State.txLoop sB.txFuel sB stA.sent with
+          | (s, n, run, oof) => (s, ({ stA with sent := n } : Stats), run, oof))
+        else (sB, stA, false, false)) = C
+    have hPC : P C.1 := by
+      rw [← hC]; split
+      · exact hP.txLoop _ _ _ hPB
+      · exact hPB
+    obtain ⟨sC, stC, run, oof⟩ := C
+    dsimp only at hPC ⊢
+    split
+    · exact hPC
+    · split
+      · exact hPC
+      · split
+        · exact ih _ _ hPC
+        · exact hPC
+
+theorem StepInv.process {P : State → Prop} (hP : StepInv P) (s : State) (doRx doTx : Bool) (h : P s) :
+    P (s.process doRx doTx).1 := hP.processLoop _ _ _ _ _ h
+
+/-- the usual case: the predicate does not look at the log, the inbox, the clock or the rate limiter -/
+theorem StepInv.of_simple {P : State → Prop}
+    (rx : ∀ s m, P s → P (s.processRx m).1) (timeout : ∀ s, P s → P s.checkTimeoutsRx)
+    (tx : ∀ s, P s → P s.processTx.1) (emit : ∀ s e, P s → P (s.emit e))
+    (env : ∀ s i n, P s → P { s with inbox := i, now := n }) (rl : ∀ s l, P s → P { s with rl := l }) :
+    StepInv P :=
+  ⟨rx, timeout, tx, fun s m h _ => emit _ _ (tx s h), fun s t m h => emit _ _ h, fun s t h => emit _ _ h,
+    env, rl⟩
+
+/-! ## The invariants are step invariants -/
+
+/-- safe and no exception so far -/
+def SafeOk (s : State) : Prop := Safe s ∧ s.exc = none
+
+theorem SafeOk.stepInv : StepInv SafeOk := by
+  apply StepInv.of_simple
+  · intro s m ⟨h, e⟩
+    exact ⟨h.processRx m, (RxFrame.processRx s m).exc.trans e⟩
+  · intro s ⟨h, e⟩
+    exact ⟨h.checkTimeoutsRx, (RxFrame.checkTimeoutsRx s).exc.trans e⟩
+  · intro s ⟨h, e⟩
+    exact ⟨h.processTx.1, h.processTx.2.trans e⟩
+  · intro s ev ⟨h, e⟩
+    exact ⟨h.emit ev, e⟩
+  · intro s i n ⟨h, e⟩
+    exact ⟨h.congr rfl rfl rfl rfl rfl rfl rfl rfl, e⟩
+  · intro s l ⟨h, e⟩
+    exact ⟨h.congr rfl rfl rfl rfl rfl rfl rfl rfl, e⟩
+
+theorem Safe.stepInv : StepInv Safe := by
+  apply StepInv.of_simple
+  · intro s m h; exact h.processRx m
+  · intro s h; exact h.checkTimeoutsRx
+  · intro s h; exact h.processTx.1
+  · intro s ev h; exact h.emit ev
+  · intro s i n h; exact h.congr rfl rfl rfl rfl rfl rfl rfl rfl
+  · intro s l h; exact h.congr rfl rfl rfl rfl rfl rfl rfl rfl
+
+theorem RxJust.of_txFrame {s s' : State} (h : RxJust s) (f : TxFrame s s') : RxJust s' :=
+  h.of_eq f.rxState f.rxBuf f.rxFrameLen f.cfg
+
+theorem RxJust.stepInv : StepInv RxJust := by
+  apply StepInv.of_simple
+  · intro s m h; exact h.processRx m
+  · intro s h; exact h.checkTimeoutsRx
+  · intro s h; exact h.of_txFrame (TxFrame.processTx s)
+  · intro s ev h; exact h.of_eq rfl rfl rfl rfl
+  · intro s i n h; exact h.of_eq rfl rfl rfl rfl
+  · intro s l h; exact h.of_eq rfl rfl rfl rfl
+
+theorem Quiet.stepInv : StepInv Quiet := by
+  apply StepInv.of_simple
+  · intro s m h; exact h.of_rxFrame (RxFrame.processRx s m)
+  · intro s h; exact h.of_rxFrame (RxFrame.checkTimeoutsRx s)
+  · intro s h; exact h.processTx.1
+  · intro s ev h; exact h
+  · intro s i n h; exact h
+  · intro s l h; exact h
+
+/-! ## The other public methods -/
+
+theorem Safe.clearTxQueue (l : List Req) : ∀ {s : State}, Safe s → Safe (s.clearTxQueue l) := by
+  induction l with
+  | nil => intro s h; exact h.congr rfl rfl rfl rfl rfl rfl rfl rfl
+  | cons r rest ih => intro s h; exact ih (h.emit _)
+
+theorem Safe.clearTxQueue_exc (l : List Req) : ∀ (s : State), (s.clearTxQueue l).exc = s.exc := by
+  induction l with
+  | nil => intro s; rfl
+  | cons r rest ih => intro s; exact (ih _).trans rfl
+
+theorem Safe.send {s : State} (h : Safe s) (a : SendArgs) : Safe (s.send a).1 := by
+  unfold State.send
+  dsimp only
+  repeat' split
+  all_goals first | exact h | exact h.congr rfl rfl rfl rfl rfl rfl rfl rfl
+
+theorem Safe.send_exc (s : State) (a : SendArgs) : (s.send a).1.exc = s.exc := by
+  unfold State.send
+  dsimp only
+  repeat' split
+  all_goals rfl
+
+theorem Safe.recv {s : State} (h : Safe s) : Safe s.recv.1 := by
+  unfold State.recv
+  split
+  · exact h
+  · exact h.congr rfl rfl rfl rfl rfl rfl rfl rfl
+
+theorem Safe.recv_exc (s : State) : s.recv.1.exc = s.exc := by
+  unfold State.recv; split <;> rfl
+
+theorem Safe.reset {s : State} (h : Safe s) : Safe s.reset := by
+  have h0 : Safe ({ s with rxQueue := [] } : State) := h.congr rfl rfl rfl rfl rfl rfl rfl rfl
+  exact (((Safe.clearTxQueue _ h0).stopSending false).stopReceiving).congr rfl rfl rfl rfl rfl rfl rfl rfl
+
+theorem Safe.reset_exc (s : State) : s.reset.exc = s.exc := by
+  have := Safe.clearTxQueue_exc s.txQueue ({ s with rxQueue := [] } : State)
+  simp only [State.reset, State.stopReceiving, stopSending_exc]
+  exact this
+
+theorem Safe.advance {s : State} (h : Safe s) (dt : Nat) : Safe (s.advance dt) :=
+  h.congr rfl rfl rfl rfl rfl rfl rfl rfl
+
+theorem Safe.pushFrame {s : State} (h : Safe s) (dt : Nat) (m : CanMsg) : Safe (s.pushFrame dt m) :=
+  h.congr rfl rfl rfl rfl rfl rfl rfl rfl
+
+theorem Safe.process {s : State} (h : Safe s) (doRx doTx : Bool) : Safe (s.process doRx doTx).1 :=
+  Safe.stepInv.process s doRx doTx h
+
+/-- **`process()` never raises** (from a safe state without a pending exception). -/
+theorem Safe.process_exc {s : State} (h : Safe s) (he : s.exc = none) (doRx doTx : Bool) :
+    (s.process doRx doTx).1.exc = none :=
+  (SafeOk.stepInv.process s doRx doTx ⟨h, he⟩).2
+
+/-! ## Arbitrary use of the public interface -/
+
+/-- one call of a public method (or, for `frame`, one frame put on the bus by the environment) -/
+inductive Op where
+  | send (a : SendArgs)
+  | frame (dt : Nat) (m : CanMsg)
+  | process (doRx doTx : Bool)
+  | advance (dt : Nat)
+  | recv
+  | stopSending
+  | stopReceiving
+  | reset
+
+def Op.step (s : State) : Op → State
+  | .send a => (s.send a).1
+  | .frame dt m => s.pushFrame dt m
+  | .process doRx doTx => (s.process doRx doTx).1
+  | .advance dt => s.advance dt
+  | .recv => s.recv.1
+  | .stopSending => s.stopSending false
+  | .stopReceiving => s.stopReceiving
+  | .reset => s.reset
+
+def runOps (s : State) (ops : List Op) : State := ops.foldl Op.step s
+
+theorem SafeOk.step {s : State} (h : SafeOk s) (op : Op) : SafeOk (op.step s) := by
+  obtain ⟨h, e⟩ := h
+  cases op with
+  | send a => exact ⟨h.send a, (Safe.send_exc s a).trans e⟩
+  | frame dt m => exact ⟨h.pushFrame dt m, e⟩
+  | process doRx doTx => exact SafeOk.stepInv.process s doRx doTx ⟨h, e⟩
+  | advance dt => exact ⟨h.advance dt, e⟩
+  | recv => exact ⟨h.recv, (Safe.recv_exc s).trans e⟩
+  | stopSending => exact ⟨h.stopSending false, by simpa [Op.step] using e⟩
+  | stopReceiving => exact ⟨h.stopReceiving, e⟩
+  | reset => exact ⟨h.reset, (Safe.reset_exc s).trans e⟩
+
+theorem SafeOk.runOps (ops : List Op) : ∀ {s : State}, SafeOk s → SafeOk (runOps s ops) := by
+  induction ops with
+  | nil => intro s h; exact h
+  | cons op rest ih => intro s h; exact ih (h.step op)
+
+/-! ## Emission while the user sends nothing -/
+
+theorem LogExt.mem_of {P : Ev → Bool} {l l' : List Ev} (h : LogExt P l l') (e : Ev) (he : e ∈ l') :
+    e ∈ l ∨ P e = true := by
+  induction h with
+  | refl => exact .inl he
+  | cons e' l l' hp _ ih =>
+    rcases List.mem_cons.1 he with rfl | h'
+    · exact .inr hp
+    · exact ih h'
+
+/-- `m` is a Flow Control frame of this layer (`_make_flow_control` with some status) -/
+def IsFc (c : Cfg) (a : Addr) (m : CanMsg) : Prop := ∃ st, makeFlowControl c a st = some m
+
+/-- quiet, and every frame handed to `txfn` since the log was `L0` is a Flow Control frame -/
+def OnlyFc (c : Cfg) (a : Addr) (L0 : List Ev) (s : State) : Prop :=
+  Quiet s ∧ s.cfg = c ∧ s.addr = a ∧ ∀ t m, Ev.tx t m ∈ s.log → Ev.tx t m ∈ L0 ∨ IsFc c a m
+
+theorem OnlyFc.stepInv (c : Cfg) (a : Addr) (L0 : List Ev) : StepInv (OnlyFc c a L0) := by
+  have hrx : ∀ s s', RxFrame s s' → OnlyFc c a L0 s → OnlyFc c a L0 s' := by
+    intro s s' f ⟨q, hc, ha, hl⟩
+    refine ⟨q.of_rxFrame f, f.cfg.trans hc, f.addr.trans ha, ?_⟩
+    intro t m hm
+    rcases f.log.mem_of _ hm with h | h
+    · exact hl t m h
+    · simp [Ev.rxInternal] at h
+  have htx : ∀ s, OnlyFc c a L0 s → OnlyFc c a L0 s.processTx.1 := by
+    intro s ⟨q, hc, ha, hl⟩
+    have f := TxFrame.processTx s
+    refine ⟨q.processTx.1, f.cfg.trans hc, f.addr.trans ha, ?_⟩
+    intro t m hm
+    rcases f.log.mem_of _ hm with h | h
+    · exact hl t m h
+    · simp [Ev.txInternal] at h
+  have hemit : ∀ s e, (∀ t m, e ≠ Ev.tx t m) → OnlyFc c a L0 s → OnlyFc c a L0 (s.emit e) := by
+    intro s e he ⟨q, hc, ha, hl⟩
+    refine ⟨q, hc, ha, ?_⟩
+    intro t m hm
+    rcases List.mem_cons.1 hm with h | h
+    · exact absurd h.symm (he t m)
+    · exact hl t m h
+  constructor
+  · intro s m h; exact hrx _ _ (RxFrame.processRx s m) h
+  · intro s h; exact hrx _ _ (RxFrame.checkTimeoutsRx s) h
+  · exact htx
+  · intro s m h ho
+    obtain ⟨q', hc', ha', hl'⟩ := htx s h
+    obtain ⟨q, hc, ha, hl⟩ := h
+    refine ⟨q', hc', ha', ?_⟩
+    intro t m' hm
+    rcases List.mem_cons.1 hm with h | h
+    · simp only [Ev.tx.injEq] at h
+      obtain ⟨-, -, st, -, hfc⟩ := q.processTx.2 m ho
+      right
+      rw [h.2]
+      exact ⟨st, by rw [← hc, ← ha]; exact hfc⟩
+    · exact hl' t m' h
+  · intro s t m h; exact hemit s _ (by simp) h
+  · intro s t h; exact hemit s _ (by simp) h
+  · intro s i n h; exact h
+  · intro s l h; exact h
+
+/-- **While the user sends nothing, `process()` emits only Flow Control frames** (and stays quiet). -/
+theorem Quiet.process {s : State} (h : Quiet s) (doRx doTx : Bool) :
+    Quiet (s.process doRx doTx).1 ∧
+      ∀ t m, Ev.tx t m ∈ (s.process doRx doTx).1.log → Ev.tx t m ∈ s.log ∨ IsFc s.cfg s.addr m := by
+  have := (OnlyFc.stepInv s.cfg s.addr s.log).process s doRx doTx
+    ⟨h, rfl, rfl, fun t m hm => .inl hm⟩
+  exact ⟨this.1, this.2.2.2⟩
+
+/-! ### counting Flow Control frames against requests -/
+
+instance (s : State) (sn : Nat) : Decidable (blockDone s sn) := by unfold blockDone; infer_instance
+
+/-- reference predicate: frame `m` is a First Frame, or a Consecutive Frame that completes a block
+    (the two events after which ISO 15765-2 lets the receiver send a Flow Control) -/
+def requestsFc (s : State) (m : CanMsg) : Bool :=
+  match decode m.data s.addr.rx.rxPrefixSize with
+  | none => false
+  | some d =>
+    match d.pdu with
+    | .ff _ _ _ => true
+    | .cf sn _ => decide (blockDone s sn)
+    | _ => false
+
+theorem processRx_pend' (s : State) (m : CanMsg) (h : (s.processRx m).1.pendingFc = true) :
+    s.pendingFc = true ∨ requestsFc s m = true := by
+  rcases processRx_pend s m h with h | ⟨d, len, data, esc, hd, hp⟩ | ⟨d, sn, data, hd, hp, hb⟩
+  · exact .inl h
+  · right; simp [requestsFc, hd, hp]
+  · right; simp [requestsFc, hd, hp, hb]
+
+theorem checkTimeoutsRx_pend (s : State) (h : s.checkTimeoutsRx.pendingFc = true) : s.pendingFc = true := by
+  unfold State.checkTimeoutsRx at h
+  split at h
+  · simp [State.stopReceiving] at h
+  · exact h
+
+/-- the receive-only activity of a layer: frames arrive, `_process_tx` runs, timeouts are checked -/
+inductive QStep where
+  | frame (m : CanMsg)
+  | tx
+  | timeout
+
+/-- run a schedule; returns the state, the number of frames emitted, and the number of frames that
+    requested a Flow Control (`requestsFc`) -/
+def qRun : State → List QStep → State × Nat × Nat
+  | s, [] => (s, 0, 0)
+  | s, .frame m :: rest =>
+    let r := qRun (s.processRx m).1 rest
+    (r.1, r.2.1, r.2.2 + (if requestsFc s m then 1 else 0))
+  | s, .tx :: rest =>
+    let r := qRun s.processTx.1 rest
+    (r.1, r.2.1 + (if s.processTx.2.1.isSome then 1 else 0), r.2.2)
+  | s, .timeout :: rest => qRun s.checkTimeoutsRx rest
+
+def pendCount (s : State) : Nat := if s.pendingFc then 1 else 0
+
+theorem qRun_count (steps : List QStep) : ∀ (s : State), Quiet s →
+    (qRun s steps).2.1 + pendCount (qRun s steps).1 ≤ (qRun s steps).2.2 + pendCount s := by
+  induction steps with
+  | nil => intro s _; simp [qRun]
+  | cons st rest ih =>
+    intro s q
+    cases st with
+    | frame m =>
+      have h1 := ih _ (q.of_rxFrame (RxFrame.processRx s m))
+      have h2 := processRx_pend' s m
+      simp only [qRun]
+      unfold pendCount at *
+      split at h1 <;> split at h1 <;> split <;> split <;> split <;> simp_all <;> omega
+    | tx =>
+      have h1 := ih _ q.processTx.1
+      have h2 := q.processTx.2
+      have h3 := processTx_clears s
+      simp only [qRun]
+      unfold pendCount at *
+      rw [h3] at h1
+      cases ho : s.processTx.2.1 with
+      | none => simp_all; omega
+      | some msg =>
+        have := (h2 msg ho).1
+        simp_all; omega
+    | timeout =>
+      have h1 := ih _ (q.of_rxFrame (RxFrame.checkTimeoutsRx s))
+      have h2 := checkTimeoutsRx_pend s
+      simp only [qRun]
+      unfold pendCount at *
+      split at h1 <;> split at h1 <;> split <;> simp_all <;> omega
+
+/-! ### buffer semantics while a reception is in progress -/
+
+/-- the session (state, buffer, announced length, last sequence number) is untouched -/
+def SessSame (s s' : State) : Prop :=
+  s'.rxState = s.rxState ∧ s'.rxBuf = s.rxBuf ∧ s'.rxFrameLen = s.rxFrameLen ∧ s'.lastSeq = s.lastSeq
+
+/-- the session is over (buffer emptied) -/
+def SessEnd (s' : State) : Prop := s'.rxState = .idle ∧ s'.rxBuf = []
+
+/-- frame `m` does not start a new message: it is not a First Frame, and if it is a Single Frame then
+    one that `_process_rx` refuses (more than 8 bytes without the escape sequence) -/
+def NotNewMsg (s : State) (m : CanMsg) : Prop :=
+  ∀ d, decode m.data s.addr.rx.rxPrefixSize = some d →
+    (∀ len data esc, d.pdu ≠ .ff len data esc) ∧
+    (∀ l data esc, d.pdu = .sf l data esc → d.canDl > 8 ∧ esc = false)
+
+theorem rxSf_buf (s : State) (d : Decoded) (data : Bytes) (esc : Bool) (hw : s.rxState = .waitCf) :
+    (SessSame s (s.rxSf d data esc).1 ∧ d.canDl > 8 ∧ esc = false) ∨ SessEnd (s.rxSf d data esc).1 := by
+  unfold State.rxSf SessSame SessEnd
+  grind [State.deliver, State.stopReceiving, State.error, State.emit]
+
+theorem rxFf_buf (s : State) (d : Decoded) (len : Nat) (data : Bytes) :
+    SessEnd (s.rxFf d len data).1 ∨
+      ((s.rxFf d len data).1.rxState = .waitCf ∧ (s.rxFf d len data).1.rxBuf = data ∧
+        (s.rxFf d len data).1.rxFrameLen = len ∧ (s.rxFf d len data).1.lastSeq = 0 ∧
+        len ≤ s.cfg.maxFrameSize) := by
+  unfold State.rxFf State.startReception SessEnd
+  grind [State.stopReceiving, State.error, State.emit, State.requestFc, startRxCfTimer]
+
+theorem rxCf_buf (s : State) (d : Decoded) (sn : Nat) (data : Bytes) (hw : s.rxState = .waitCf) :
+    SessSame s (s.rxCf d sn data).1 ∨ SessEnd (s.rxCf d sn data).1 ∨
+      (sn = (s.lastSeq + 1) % 16 ∧ (s.rxCf d sn data).1.rxState = .waitCf ∧
+        (s.rxCf d sn data).1.rxBuf = s.rxBuf ++ data.take (s.rxFrameLen - s.rxBuf.length) ∧
+        (s.rxCf d sn data).1.rxFrameLen = s.rxFrameLen ∧ (s.rxCf d sn data).1.lastSeq = sn) := by
+  unfold State.rxCf SessSame SessEnd
+  simp only [hw]
+  split
+  · next hsn =>
+    split
+    · left; exact ⟨hw, rfl, rfl, rfl⟩
+    · split
+      · right; left; simp [State.stopReceiving]
+      · split
+        · right; right
+          exact ⟨hsn, by simp [State.requestFc, startRxCfTimer, hw], by simp [State.requestFc, startRxCfTimer],
+            by simp [State.requestFc, startRxCfTimer], by simp [State.requestFc, startRxCfTimer]⟩
+        · right; right
+          exact ⟨hsn, by simp [startRxCfTimer, hw], by simp [startRxCfTimer], by simp [startRxCfTimer],
+            by simp [startRxCfTimer]⟩
+  · right; left; simp [State.stopReceiving, State.error, State.emit]
+
+/-- a frame that is not part of a reception in progress can only start one (First Frame) -/
+theorem rxIdle_buf (s : State) (m : CanMsg) (hi : s.rxState = .idle) :
+    (s.processRx m).1.rxState = .idle ∨
+      ∃ d len data esc, decode m.data s.addr.rx.rxPrefixSize = some d ∧ d.pdu = .ff len data esc ∧
+        (s.processRx m).1.rxState = .waitCf ∧ (s.processRx m).1.rxBuf = data ∧
+        (s.processRx m).1.rxFrameLen = len ∧ (s.processRx m).1.lastSeq = 0 ∧ len ≤ s.cfg.maxFrameSize := by
+  rw [processRx_eq]
+  split
+  · left; simp [State.stopReceiving]
+  · next d hd =>
+    split
+    · left; exact hi
+    · left; unfold State.rxSf; grind [State.deliver, State.stopReceiving, State.error, State.emit]
+    · next len data esc hp =>
+      rcases rxFf_buf s d len data with h | h
+      · exact .inl h.1
+      · exact .inr ⟨d, len, data, esc, hd, hp, h⟩
+    · left; unfold State.rxCf; grind [State.error, State.emit]
+
+/-- **Buffer semantics.** While a reception is in progress a frame either leaves the session untouched,
+    or ends it (buffer emptied), or is the expected Consecutive Frame and appends its (clipped) data,
+    or is a First Frame that starts a new session with its own data. -/
+theorem processRx_buf (s : State) (hw : s.rxState = .waitCf) (m : CanMsg) :
+    (SessSame s (s.processRx m).1 ∧ NotNewMsg s m) ∨ SessEnd (s.processRx m).1 ∨
+    (∃ d data, decode m.data s.addr.rx.rxPrefixSize = some d ∧ d.pdu = .cf ((s.lastSeq + 1) % 16) data ∧
+      (s.processRx m).1.rxState = .waitCf ∧
+      (s.processRx m).1.rxBuf = s.rxBuf ++ data.take (s.rxFrameLen - s.rxBuf.length) ∧
+      (s.processRx m).1.rxFrameLen = s.rxFrameLen ∧ (s.processRx m).1.lastSeq = (s.lastSeq + 1) % 16) ∨
+    (∃ d len data esc, decode m.data s.addr.rx.rxPrefixSize = some d ∧ d.pdu = .ff len data esc ∧
+      (s.processRx m).1.rxState = .waitCf ∧ (s.processRx m).1.rxBuf = data ∧
+      (s.processRx m).1.rxFrameLen = len ∧ (s.processRx m).1.lastSeq = 0 ∧ len ≤ s.cfg.maxFrameSize) := by
+  rw [processRx_eq]
+  split
+  · right; left; simp [SessEnd, State.stopReceiving]
+  · next d hd =>
+    split
+    · next st bs stm hp =>
+      left; refine ⟨⟨rfl, rfl, rfl, rfl⟩, ?_⟩
+      intro d' hd'
+      have : d' = d := by rw [hd] at hd'; exact (Option.some.inj hd').symm
+      subst this
+      simp [hp]
+    · next l data esc hp =>
+      rcases rxSf_buf s d data esc hw with ⟨h, h8, he⟩ | h
+      · left; refine ⟨h, ?_⟩
+        intro d' hd'
+        have : d' = d := by rw [hd] at hd'; exact (Option.some.inj hd').symm
+        subst this
+        simp only [hp]
+        refine ⟨by simp, ?_⟩
+        intro l' data' esc' heq
+        simp only [Pdu.sf.injEq] at heq
+        exact ⟨h8, heq.2.2 ▸ he⟩
+      · exact .inr (.inl h)
+    · next len data esc hp =>
+      rcases rxFf_buf s d len data with h | h
+      · exact .inr (.inl h)
+      · exact .inr (.inr (.inr ⟨d, len, data, esc, hd, hp, h⟩))
+    · next sn data hp =>
+      rcases rxCf_buf s d sn data hw with h | h | ⟨h1, h2, h3, h4, h5⟩
+      · left; refine ⟨h, ?_⟩
+        intro d' hd'
+        have : d' = d := by rw [hd] at hd'; exact (Option.some.inj hd').symm
+        subst this
+        simp [hp]
+      · exact .inr (.inl h)
+      · subst h1
+        exact .inr (.inr (.inl ⟨d, data, hd, hp, h2, h3, h4, h5⟩))
 end Isotp
